@@ -14,6 +14,7 @@ pub mod chain;
 pub mod snapshot;
 pub mod symbols;
 pub mod text;
+pub mod wire;
 pub mod expr;
 
 /// SplitMix64: every random choice of a run derives from one state.
